@@ -930,6 +930,9 @@ pub trait Allocator: sealed::Sealed {
 
   /// Forcelly increases the discarded bytes.
   ///
+  /// ## Panics
+  /// - If the ARENA is read-only.
+  ///
   /// ## Example
   ///
   /// ```rust
@@ -1144,6 +1147,9 @@ pub trait Allocator: sealed::Sealed {
   fn minimum_segment_size(&self) -> u32;
 
   /// Sets the minimum segment size of the allocator.
+  ///
+  /// ## Panics
+  /// - If the ARENA is read-only.
   ///
   /// ## Example
   ///
